@@ -160,9 +160,9 @@ def build_gen(d):
     if "G" not in _GENS:
         @h.paramclass
         class P:
-            w = h.Param(dtype=int, desc="width", default=1)
-            s = h.Param(dtype=str, desc="a string", default="")
-            l = h.Param(dtype=list, desc="a list", default=[])
+            w = h.Param(dtype=int, desc="width")
+            s = h.Param(dtype=str, desc="a string")
+            l = h.Param(dtype=tuple, desc="a tuple")
 
         @h.generator
         def Cell(p: P) -> h.Module:
@@ -171,13 +171,28 @@ def build_gen(d):
             m.b = h.Port()
             m.r = h.R(r=1 + len(p.l))(p=m.a[0], n=m.b)
             return m
-        _GENS["G"] = (P, Cell)
-    P, Cell = _GENS["G"]
+        @h.paramclass
+        class P2:
+            w = h.Param(dtype=int, desc="width")
+            s = h.Param(dtype=str, desc="a string")
+
+        @h.generator
+        def Cell2(p: P2) -> h.Module:        # scalar parameters only: readable name when short
+            m = h.Module()
+            m.a = h.Port(width=p.w)
+            m.b = h.Port()
+            m.r = h.R(r=1)(p=m.a[0], n=m.b)
+            return m
+        _GENS["G"] = (P, Cell, P2, Cell2)
+    P, Cell, P2, Cell2 = _GENS["G"]
     top = h.Module(name="GenTop" + tag)
     top.z = h.Signal()
     for k, c in enumerate(d["calls"]):
         s = top.add(h.Signal(name=f"s{k}", width=c["w"]))
-        top.add(Cell(P(w=c["w"], s=c["s"], l=c["l"]))(a=s, b=top.z), name=f"c{k}")
+        if c["l"]:
+            top.add(Cell(P(w=c["w"], s=c["s"], l=tuple(c["l"])))(a=s, b=top.z), name=f"c{k}")
+        else:
+            top.add(Cell2(P2(w=c["w"], s=c["s"]))(a=s, b=top.z), name=f"c{k}")
     return top
 
 
